@@ -47,6 +47,7 @@ ASSUMPTIONS = [
 ]
 EXHAUSTIVE = {"quick": False, "thorough": False}
 LEANCHECK_MODULES = ["Y0.Model.Latent", "Y0.Props.C16"]
+TRUSTED_EXTRA = ["lean/Y0/Spec/LatentSpec.lean", "lean/Y0/Spec/SepSpec.lean (MConnPath)", "lean/Y0/Lemmas/IdTotal.lean (ValidQuery, TopoGood)"]
 
 ERRS = None  # filled lazily (needs networkx)
 
@@ -938,7 +939,10 @@ MANIFEST = {
              "and the simplified DAG, returns the latent projection of the input, and its verdict is ID's verdict on any "
              "latent projection of the input (design_result, design_keyError)."),
     "note": ("Trusted: Lean kernel; axioms propext/Classical.choice/Quot.sound; Spec/LatentSpec.lean (definition of latent "
-             "projection, WF, Acyclic); the hand-written model tied to the code by differential sampling on every run "
+             "projection, WF, Acyclic); Spec/SepSpec.lean (MConnPath: the textbook path definition of m-/d-connection, shared "
+             "with C04) and the definitions ValidQuery / TopoGood of Lemmas/IdTotal.lean (shared with C02); the separation and "
+             "identifiability clauses are about the C04 / C02 models (MG.dSeparated, identify), which those properties' own "
+             "correspondence checks tie to are_d_separated / identify(); the hand-written model tied to the code by differential sampling on every run "
              "(networkx DiGraph/topological_sort behaviour under mutation is modelled); Python string order of names is "
              "passed to the model as a rank table. Five defects were found by this check and fixed in y0 (edge-less nodes "
              "dropped by both conversions, single-pass widow removal, u_i and _prime name collisions); the model follows "
